@@ -219,6 +219,22 @@ def canon_registry(reg):
 
 
 # ------------------------------------------------------------------------------------------------ C08 normal form
+def _member_key(t):
+    """identity of a union member: pointers to two different models are different members even when the models have the same keys
+    (whether such models are merged is the merge policy's decision, C05), everything else is compared structurally"""
+    if isinstance(t, ModelPtr):
+        return ("ptr", id(t.type))
+    if isinstance(t, DOptional):
+        return ("opt", _member_key(t.type))
+    if isinstance(t, DUnion):
+        return ("union", frozenset(_member_key(m) for m in t.types))
+    if isinstance(t, DList):
+        return ("list", _member_key(t.type))
+    if isinstance(t, DDict):
+        return ("dict", _member_key(t.type))
+    return canon_type(t)
+
+
 def normal_form_violations(t, str_registry, path="$"):
     """List of violations of the normal form stated by C08 anywhere inside IR type `t`."""
     bad = []
@@ -243,7 +259,7 @@ def normal_form_violations(t, str_registry, path="$"):
             bad.append(f"{path}: single-member union {t}")
         if any(isinstance(m, DUnion) for m in ms):
             bad.append(f"{path}: nested union {t}")
-        keys = [repr(canon_type(m)) for m in ms]
+        keys = [canon_str(_member_key(m)) for m in ms]
         if len(set(keys)) != len(keys):
             bad.append(f"{path}: duplicate members {t}")
         if any(m is Null for m in ms):
